@@ -53,3 +53,52 @@ pub fn ser_diff(data: &[u8]) {
     let v = crate::sval::gen_sval(&mut crate::gen::Dec::new(data), 5);
     settle("C13", crate::props::c13::check(&v));
 }
+
+/// Properties served by the `set_diff` target; the campaign's property comes from `RVV_SET_PROP` (default: the
+/// first input byte picks one), the second input byte picks among that property's generators, the rest is the recipe.
+pub const SET_PROPS: [&str; 9] = ["C03", "C04", "C05", "C09", "C10", "C11", "C12", "C14", "C15"];
+
+pub fn set_case(prop: &str, sel: u8, bytes: &[u8]) -> Verdict {
+    use crate::props::*;
+    match prop {
+        "C03" => c03::fuzz_bytes(bytes),
+        "C04" => c04::fuzz_bytes(bytes),
+        "C05" => c05::check(&c05::random_case(bytes)),
+        "C09" => c09::fuzz_bytes(sel, bytes),
+        "C10" => c10::fuzz_bytes(sel, bytes),
+        "C11" => c11::check(&c11::random_case(bytes)),
+        "C12" => {
+            if sel % 2 == 0 {
+                c12::check(&c12::random_case(bytes))
+            } else {
+                c12::check_expression_history(bytes)
+            }
+        }
+        "C14" => c14::fuzz_bytes(bytes),
+        "C15" => c15::fuzz_bytes(bytes),
+        _ => Ok(()),
+    }
+}
+
+pub fn set_diff(data: &[u8]) {
+    let _ = known();
+    static PROP: OnceLock<Option<String>> = OnceLock::new();
+    let fixed = PROP.get_or_init(|| std::env::var("RVV_SET_PROP").ok().filter(|p| SET_PROPS.contains(&p.as_str())));
+    if data.len() < 2 {
+        return;
+    }
+    let prop = match fixed {
+        Some(p) => p.as_str(),
+        None => SET_PROPS[data[0] as usize % SET_PROPS.len()],
+    };
+    settle(prop, set_case(prop, data[1], &data[2..]));
+}
+
+/// Replay of a `set_diff` artifact: `{"set_fuzz_bytes": [...], "set_prop": "C09"}`.
+pub fn set_replay(prop: &str, j: &serde_json::Value) -> Option<Verdict> {
+    let data: Vec<u8> = j.get("set_fuzz_bytes")?.as_array()?.iter().filter_map(|b| b.as_u64().map(|x| x as u8)).collect();
+    if data.len() < 2 {
+        return None;
+    }
+    Some(set_case(prop, data[1], &data[2..]))
+}
